@@ -409,7 +409,7 @@ def _f45(vio):
 
 @mechanism("F46-jagged-index-on-nd-numpy")
 def _f46(vio):
-    return "NumpyArray::getitem_next_jagged" in str(vio.get("detail")) and "ndim == 2" in str(vio.get("detail"))
+    return "NumpyArray::getitem_next_jagged" in str(vio.get("detail"))
 
 
 @mechanism("F47-joint-advanced-through-option")
